@@ -56,6 +56,16 @@ KF_C03_declonly(ev) == ev.declOnlyMemFnLines > 0 /\ ev.sameLinesModuloIdsAndDecl
 (* the leaf type change.                                                                                                       *)
 KF_C13_union(ev) == ev.inUnion /\ (\E i \in 1..Len(ev.kinds) : ev.kinds[i] = "member-type") /\ ev.exitDefault = 0 /\ ev.exitLeaf = 4
 
+(* C13: a parameter whose typedef was renamed AND that became top-level const (`T6 p` -> `const T110 p`): each edit alone is filtered as      *)
+(* harmless, together the default mode sees a typedef turned into a const-qualified type (a "distinct" change, no category) and reports it   *)
+(* (exit 4) while the leaf mode records no leaf change (exit 0).  Classified as this finding only if the pair carries nothing but harmless     *)
+(* catalogue entries, among them both of these, and the statuses are exactly 4 / 0.                                                         *)
+KF_C13_cvtypedef(ev) ==
+  /\ \E i \in 1..Len(ev.kinds) : ev.kinds[i] = "param-top-const"
+  /\ \E i \in 1..Len(ev.kinds) : ev.kinds[i] = "typedef-rename"
+  /\ \A i \in 1..Len(ev.kinds) : ev.kinds[i] \in {"param-top-const", "typedef-rename", "enumerator-append", "access-change", "method-add"}
+  /\ ev.exitDefault = 4 /\ ev.exitLeaf = 0
+
 (* C07: the insertion of a non-virtual member function is categorized NON_VIRT_MEM_FUN_CHANGE (filtered by default), but *)
 (* no reporter ever lists it: with --harmless the comparison still prints nothing and exits 0.                              *)
 KF_C07_method(ev) == ev.kinds = <<"method-add">> /\ ev.exit = 0 /\ ev.hexit = 0
